@@ -39,7 +39,7 @@ from .histsim import pack, exc_sig, factory_class
 from . import traced
 
 PROP = "C19"
-WATCHDOG_S = 240
+WATCHDOG_S = 900
 MAX_POINTS = 6_000_000
 OPCODE_FUNCS = {"makeImpl", "register_namespace"}
 OPCODE_INIT_FILES = ("qrcode/image/svg.py",)
@@ -1245,7 +1245,7 @@ def worker_fini(ctx):
 
 
 def execute(ctx, case, log):
-    res = ctx["fs"].run(run_case, case, timeout=200.0)
+    res = ctx["fs"].run(run_case, case, timeout=400.0)
     log.lines.extend(res["log"][1:])
     ctx["last"] = res
     return [Violation.from_json(v) for v in res["violations"]], res["stats"], res["steps"]
